@@ -130,9 +130,23 @@ def run(m: Model, r: Report, tier: str) -> None:
                 detail = f"test {test} -> {hit}, else -> {miss}, break={has_break}"
                 ok = test == f"isinstance({h.name}, {t})" and hit == [74] and miss == [70] and has_break
         else:
-            detail = "expected `for t in self.CATCHED_EXCEPTIONS: if isinstance(e, t): ... break / else:`; found " + \
-                "; ".join(ast.unparse(s).split("\n")[0][:80] for s in h.body[:2])
-        r.check(ok, "R1", f"{ep.qualname}#Exception",
+            # the same decision without a loop: `if isinstance(e, tuple(self.CATCHED_EXCEPTIONS)) ... else ...`
+            tifs = [n for n in h.body if isinstance(n, ast.If) and isinstance(n.test, ast.Call) and ast.unparse(n.test.func) == "isinstance" and len(n.test.args) == 2
+                    and ast.unparse(n.test.args[0]) == h.name and "CATCHED_EXCEPTIONS" in ast.unparse(n.test.args[1])]
+            if len(tifs) == 1 and not fors:
+                cls_arg = ast.unparse(tifs[0].test.args[1]).replace(" ", "")
+                hit = [fold_code(v) for v in assigned_codes(tifs[0].body)]
+                miss = [fold_code(v) for v in assigned_codes(tifs[0].orelse)]
+                detail = f"test {ast.unparse(tifs[0].test)} -> {hit}, else -> {miss}"
+                ok = cls_arg in ("tuple(self.CATCHED_EXCEPTIONS)", "(*self.CATCHED_EXCEPTIONS,)") and hit == [74] and miss == [70]
+            elif any(isinstance(n, ast.Compare) and "CATCHED_EXCEPTIONS" in ast.unparse(n) and ("type(" in ast.unparse(n) or "__class__" in ast.unparse(n)) for n in ast.walk(h)):
+                ok = False
+                detail = "the exception's exact type is looked up in CATCHED_EXCEPTIONS (subclasses such as ConnectionResetError for ConnectionError are not recognised)"
+            else:
+                ok = None
+                detail = "the mapping of expected exceptions was not recognised (neither a loop over CATCHED_EXCEPTIONS nor one isinstance test on them); found " + \
+                    "; ".join(ast.unparse(s).split("\n")[0][:80] for s in h.body[:2])
+        r.check3(ok, "R1", f"{ep.qualname}#Exception",
                 f"expected-exception mapping: {detail}; documented: instance of any CATCHED_EXCEPTIONS class (incl. subclasses) -> 74, else 70", loc=ep.loc)
     bc = m.require_class(f"{BASE}.BaseCommand")
     n_ce = 0
